@@ -301,8 +301,11 @@ def _pool(rng, size, spins):
     w = rng.choice(["o", "ov", "ov", "ovg", "og"])
     for n in range(size):
         sp = rng.choice(w)
-        if not letters[sp]:
-            sp = "o" if letters["o"] else "v"
+        if not letters[sp]:     # numbered names: i1, a1, p1, i2, ...
+            base = {"o": OCC, "v": VIRT, "g": GEN}[sp]
+            num = 1 + n // 4
+            letters[sp] = [f"{x}{num}" for x in base
+                           if not any(q[0] == f"{x}{num}" for q in pool)]
         nm = letters[sp].pop(0)
         spin = rng.choice("ab") if spins else ""
         pool.append((nm, spin))
@@ -493,7 +496,25 @@ def corpus():
                          T("D", "ik")], "")
     add("group-test:isolated", [T("A", "pqps"), T("B", "ip"), T("C", "jp"),
                                 T("D", "kr"), T("F", "ls")], "ijl")
+    # canonical cores of the inputs on which the selected scheme is known to
+    # be wrong (known_findings.d/C16.json); they must keep reproducing
+    for core in KNOWN_CORES:
+        pat, _, lim = core.partition(";")
+        lhs, tgt = pat.split("->")
+        mg = int(lim.split("=")[1]) if lim.startswith("max_n=") else None
+        add("known-core:" + core,
+            [T("ABCDFGH"["ABCDEFG".index(o.split("_")[0])], o.split("_")[1])
+             for o in lhs.split(",")],     # (E would be sympy's Exp1)
+            tgt, None, mg)
     return out
+
+
+KNOWN_CORES = [
+    "A_i,B_ij,C_ij,D_jk->k", "A_i,B_ij,C_ij,D_j->;max_n=3",
+    "A_i,B_i,C_ij,D_ij,E_j->;max_n=4", "A_i,A_i,B_ijj,C_jk->k",
+    "A_ij,A_ij,B_i,C_jk->k", "A_,B_iij,C_ij,D_jk->k",
+    "A_ij,A_ij,B_i,C_j->;max_n=3", "A_i,B_ij,C_ijk,D_jk,E_k->;max_n=4",
+    "A_i,A_i,B_i,C_ijj,D_j->;max_n=4", "A_,B_ij,C_ijj,D_ik->k"]
 
 
 def gen_cases(ctx):
@@ -605,34 +626,98 @@ def shrink(spec):
                 best = v
                 improved = True
                 break
-    # canonical names / letters if the failure survives the renaming
-    ren, nren = {}, {}
+    return canonical_core(best)
+
+
+def _space_of(x):
+    return "o" if x[0][0] in "ijklmno" else "v" if x[0][0] in "abcdefgh" \
+        else "g"
+
+
+def _rename(spec, order, to_occ):
+    """two passes of _rename1 with the indices inside every object sorted
+    by their new names in between (objects are treated as index multisets
+    as far as the failure permits; the caller re-checks the failure)"""
+    r = _rename1(spec, order, to_occ)
+    for _ in range(2):
+        if r is None:
+            return None
+        r = dict(r, factors=[(f[0], f[1], sorted(f[2]), f[3])
+                             for f in r["factors"]])
+        r = _rename1(r, range(len(r["factors"])), to_occ)
+    return r
+
+
+def _rename1(spec, order, to_occ):
+    """factors in the given order, tensors named A, B, ... and indices
+    i, j, ... / a, b, ... / p, q, ... in order of first appearance; with
+    to_occ every index becomes an occupied index without spin"""
+    letters = {"o": "ijklmno", "v": "abcdefgh", "g": "pqrstuvw"}
+    ren, used, nren = {}, {"o": 0, "v": 0, "g": 0}, {}
 
     def rn(x):
         if x not in ren:
-            sp = "o" if x[0][0] in "ijklmno" else "v" if x[0][0] in "abcdefgh" \
-                else "g"
-            let = {"o": OCC + "o", "v": VIRT + "gh", "g": GEN + "tuvw"}[sp]
-            used = sum(1 for y in ren if (y[0][0] in let))
-            ren[x] = (let[used], x[1])
+            sp = "o" if to_occ else _space_of(x)
+            if used[sp] >= len(letters[sp]):
+                raise ValueError
+            ren[x] = (letters[sp][used[sp]], "" if to_occ else x[1])
+            used[sp] += 1
         return ren[x]
 
     def nn(n):
         if n not in nren:
-            nren[n] = chr(ord("A") + len(nren))
+            nren[n] = "ABCDFGHJKLM"[len(nren)]
         return nren[n]
 
-    canon = dict(best, factors=[(f[0], nn(f[1]) if f[0] == "T" else f[1],
-                                 [rn(x) for x in f[2]], f[3])
-                                for f in best["factors"]])
-    canon["target"] = [rn(x) for x in best["target"]]
-    if selected_fails(canon) is not None:
-        best = canon
-    return best
+    fs = []
+    for k in order:
+        f = spec["factors"][k]
+        if f[0] != "T":
+            return None
+        # one name per object; only entirely identical objects (which sympy
+        # merges into a power) share a name
+        fs.append(("T", nn((f[1], tuple(f[2]))), [rn(x) for x in f[2]], f[3]))
+    tg = [rn(x) for x in spec["target"]]
+    tg.sort()
+    return dict(spec, factors=fs, target=tg)
+
+
+def canonical_core(spec):
+    """smallest description (over object orders, optionally with all indices
+    made occupied/spin-free) on which the implementation still fails"""
+    import itertools
+    n = len(spec["factors"])
+    if n > 6:
+        return spec
+    # index order inside the objects: sorted, where the failure persists
+    for k, f in enumerate(spec["factors"]):
+        g = (f[0], f[1], sorted(f[2]), f[3])
+        cand = dict(spec, factors=spec["factors"][:k] + [g]
+                    + spec["factors"][k + 1:])
+        if g != f and selected_fails(cand) is not None:
+            spec = cand
+    best, best_key = None, None
+    for to_occ in (True, False):
+        for order in itertools.permutations(range(n)):
+            try:
+                cand = _rename(spec, order, to_occ)
+            except ValueError:
+                cand = None
+            if cand is None:
+                continue
+            cc = selected_fails(cand)
+            if cc is None:
+                continue
+            key = U.pattern_key(cc.objs, cc.tg, cc.mid, cc.mg)
+            if best_key is None or (len(key), key) < (len(best_key), best_key):
+                best, best_key = cand, key
+        if best is not None:
+            return best
+    return spec
 
 
 def describe(c):
-    return {"label": c.spec.get("label"),
+    return {"label": c.spec.get("label"), "spec": c.spec,
             "term": str(c.term.sympy), "target_indices": c.tstr,
             "target_spin": c.tspin, "max_itmd_dim": c.mid,
             "max_n_simultaneous_contracted": c.mg,
@@ -751,7 +836,14 @@ def run(ctx):
                       {"case": d}, False)
         stats["enumerated_not_wf"] += sum(1 for x in r["enum_wf"] if not x)
         if not consistent:
-            continue        # correspondence only (precondition violated)
+            # correspondence only (precondition violated); the model predicts
+            # and the evaluation confirms that such requests are not computed
+            stats["inconsistent_requests"] = \
+                stats.get("inconsistent_requests", 0) + 1
+            if c.sel is not None and not r["r_selected_wf"]:
+                stats["inconsistent_not_wf"] = \
+                    stats.get("inconsistent_not_wf", 0) + 1
+            continue
         # --- the property itself on the returned schemes -------------------
         kind = c.opt_lit[0]
         if kind in ("typeerror", "bare"):
@@ -771,6 +863,9 @@ def run(ctx):
             ctx.obligation(f"selected scheme wf (Coq): {d['label']}", wf)
             if not wf:
                 stats["selected_not_wf"] += 1
+                if num is True:
+                    stats["not_wf_but_numerically_equal"] = \
+                        stats.get("not_wf_but_numerically_equal", 0) + 1
                 core = shrink(dict(c.spec))
                 cc = selected_fails(core) or c
                 cnum = U.numeric_check(cc.objs, cc.tg, cc.sel)
@@ -828,8 +923,35 @@ def run(ctx):
 
 
 def replay(ctx, rep):
+    """re-executes the recorded case on the implementation: prints the
+    selected scheme, the verdict of the wf mirror and the numeric comparison
+    with the brute-force value of the term; exit code 1 if it still fails"""
     r = rep.get("replay", rep)
-    case = r.get("shrunk_case") or r.get("case")
-    print("case:", case)
-    print("recorded:", {k: r[k] for k in r if k not in ("case",)})
-    return 0
+    rc = 0
+    for tag in ("case", "shrunk_case"):
+        case = r.get(tag)
+        if not case or "spec" not in case:
+            continue
+        spec = dict(case["spec"])
+        spec["factors"] = [(f[0], f[1], [tuple(x) for x in f[2]], f[3])
+                           for f in spec["factors"]]
+        spec["target"] = [tuple(x) for x in spec["target"]]
+        c = observe(spec)
+        print(f"--- {tag}: {c.term.sympy}  targets={c.tstr!r} "
+              f"max_itmd_dim={c.mid} max_n_simultaneous_contracted={c.mg}")
+        print("result kind:", c.opt_lit[0])
+        if c.sel is not None:
+            for st in scheme_text(c.sel):
+                print("   ", st)
+            wf = U.wf_scheme(c.objs, c.tg, c.sel)
+            num = U.numeric_check(c.objs, c.tg, c.sel)
+            print("wf_scheme (mirror):", wf, " numeric:", num)
+            if not wf or num is not True:
+                rc = 1
+        elif c.opt_lit[0] in ("typeerror", "bare", "exception"):
+            print("detail:", c.opt_lit[1] if c.opt_lit[0] != "bare" else
+                  "bare Contraction returned")
+            rc = 1
+    if rc == 0 and "case" not in r:
+        print(rep)
+    return rc
